@@ -433,6 +433,16 @@ class POSet:
         return item in self._elements_to_index_map
 
     def __delitem__(self, key):
+        if self._use_cache:
+            # make sure everything ``reconnect_relatives`` relies on is cached while ``key`` is still in the POSet
+            for parent in self.parents(key):
+                for el_i in self.children(parent) | self.children(key):
+                    self.descendants(el_i)
+            for child in self.children(key):
+                for el_i in self.parents(child) | self.parents(key):
+                    self.ancestors(el_i)
+            self.ancestors(key), self.descendants(key)
+
         del self._elements_to_index_map[self._elements[key]]
         del self._elements[key]
 
